@@ -94,7 +94,7 @@ func runC05(c *vk.Ctx) {
 			switch probe {
 			case 0: // (i)+(iii) exact-in: routed vs hop by hop, estimate vs execution
 				before := w.ch.Digest(ctx, "gamm", "concentratedliquidity", "bank", "poolmanager")
-				est, estErr := q.EstimateSwapExactAmountIn(ctx, pmquery.EstimateSwapExactAmountInRequest{TokenIn: sdk.NewCoin(din, amtIn).String(), Routes: route})
+				est, estErr := q.EstimateSwapExactAmountIn(qctx(ctx), pmquery.EstimateSwapExactAmountInRequest{TokenIn: sdk.NewCoin(din, amtIn).String(), Routes: route})
 				if w.ch.Digest(ctx, "gamm", "concentratedliquidity", "bank", "poolmanager") != before {
 					c.Violate("C05.estimate_changed_state", sig("exact-in"), "EstimateSwapExactAmountIn over %v changed the state", route)
 					return
@@ -145,7 +145,7 @@ func runC05(c *vk.Ctx) {
 				amtOut := sdkmath.MaxInt(sdkmath.OneInt(), w.ch.Bal(last.addr, dout).QuoRaw(20+r.I64n(100000)))
 				huge := sdkmath.NewIntWithDecimal(1, 60)
 				before := w.ch.Digest(ctx, "gamm", "concentratedliquidity", "bank", "poolmanager")
-				est, estErr := q.EstimateSwapExactAmountOut(ctx, pmquery.EstimateSwapExactAmountOutRequest{TokenOut: sdk.NewCoin(dout, amtOut).String(), Routes: outRoute})
+				est, estErr := q.EstimateSwapExactAmountOut(qctx(ctx), pmquery.EstimateSwapExactAmountOutRequest{TokenOut: sdk.NewCoin(dout, amtOut).String(), Routes: outRoute})
 				if w.ch.Digest(ctx, "gamm", "concentratedliquidity", "bank", "poolmanager") != before {
 					c.Violate("C05.estimate_changed_state", sig("exact-out"), "EstimateSwapExactAmountOut over %v changed the state", outRoute)
 					return
@@ -180,7 +180,7 @@ func runC05(c *vk.Ctx) {
 				need[len(outRoute)] = sdk.NewCoin(dout, amtOut)
 				okEst := true
 				for h := len(outRoute) - 1; h >= 0; h-- {
-					e, err := q.EstimateSwapExactAmountOut(fb, pmquery.EstimateSwapExactAmountOutRequest{TokenOut: need[h+1].String(), Routes: []poolmanagertypes.SwapAmountOutRoute{outRoute[h]}})
+					e, err := q.EstimateSwapExactAmountOut(qctx(fb), pmquery.EstimateSwapExactAmountOutRequest{TokenOut: need[h+1].String(), Routes: []poolmanagertypes.SwapAmountOutRoute{outRoute[h]}})
 					if err != nil {
 						okEst = false
 						break
@@ -210,7 +210,7 @@ func runC05(c *vk.Ctx) {
 					c.Class("limit-in|%s|whitelisted-skip", kind)
 					continue
 				}
-				est, estErr := q.EstimateSwapExactAmountIn(ctx, pmquery.EstimateSwapExactAmountInRequest{TokenIn: sdk.NewCoin(din, amtIn).String(), Routes: route})
+				est, estErr := q.EstimateSwapExactAmountIn(qctx(ctx), pmquery.EstimateSwapExactAmountInRequest{TokenIn: sdk.NewCoin(din, amtIn).String(), Routes: route})
 				if estErr != nil {
 					c.Class("limit-in|%s|estimate-rejected", kind)
 					continue
@@ -257,7 +257,7 @@ func runC05(c *vk.Ctx) {
 			case 3: // (iv) limits around the estimate, exact-out
 				last := ps[len(ps)-1]
 				amtOut := sdkmath.MaxInt(sdkmath.OneInt(), w.ch.Bal(last.addr, dout).QuoRaw(20+r.I64n(100000)))
-				est, estErr := q.EstimateSwapExactAmountOut(ctx, pmquery.EstimateSwapExactAmountOutRequest{TokenOut: sdk.NewCoin(dout, amtOut).String(), Routes: outRoute})
+				est, estErr := q.EstimateSwapExactAmountOut(qctx(ctx), pmquery.EstimateSwapExactAmountOutRequest{TokenOut: sdk.NewCoin(dout, amtOut).String(), Routes: outRoute})
 				if estErr != nil {
 					c.Class("limit-out|%s|estimate-rejected", kind)
 					continue
